@@ -75,6 +75,23 @@ _FUNCTION_PROPERTY = {
 }
 
 
+# functions a property reads although they are listed with another one (a function can matter to several properties)
+EXTRA_FUNCTIONS = {
+    "C02": ["SideState.__setattr__", "SyncManager.make_temp_file", "SyncManager.download_changed", "SyncManager.upload_synced"],
+    "C04": ["SyncState._change_oid", "SyncEntry.is_deletion", "SyncEntry.is_creation", "SyncState.update"],
+    "C06": ["EventManager._save_current_cursor", "EventManager._do_first_init", "EventManager._do_walk_if_needed", "EventManager._forget_walk_marker",
+            "EventManager._process_event"],
+    "C07": ["SyncManager.path_conflict", "EventManager._do_first_init", "EventManager._save_current_cursor", "SyncManager._sync_one_entry", "SyncState._storage_update",
+            "SyncState.storage_commit", "SyncManager.finished"],
+    "C10": ["CloudSync.__init__", "CloudSync.authenticate"],
+    "C11": ["CloudSync.forget", "SyncEntry.__setitem__", "SyncState.forget", "SyncState.updated"],
+    "C12": ["EventManager._process_event", "SyncManager.embrace_change"],
+    "C13": ["CloudSync.translate", "Provider.is_subpath_of_root"],
+    "C14": ["SyncManager.do", "Provider._walk", "Provider.walk", "Provider.walk_oid", "EventManager._do_walk_if_needed"],
+    "C15": ["CloudSync.forget", "SyncManager.do"],
+}
+
+
 def _fill_from_inventory():
     from sa.reinline import inventory
     inv = inventory()
@@ -601,6 +618,9 @@ def _new_helper(ctx: Ctx, g, call: ast.Call):
     return h
 
 
+_ORDER: Dict[str, List] = {}      # spec -> order pairs of the last function_shapes() call for it
+
+
 def function_shapes(ctx: Ctx, spec: str):
     """shape -> (generalised atoms, diagram text, raw atoms, diagram, statements) for one function of the table, or None when the function is gone"""
     from rules.reachcond import Walker, shape_functions
@@ -611,6 +631,9 @@ def function_shapes(ctx: Ctx, spec: str):
     w = Walker(ctx, f, _norm(ctx, f), _sites_of, helper_fn=lambda g, call: _new_helper(ctx, g, call), norm_fn=None)
     w.norm_fn = lambda h, call: _helper_norm(ctx, w, h, call)
     w.run()
+    _ORDER[spec] = None
+    from rules.reachcond import order_pairs
+    _ORDER[spec] = order_pairs(w)
     return f, shape_functions(w)
 
 
@@ -668,7 +691,7 @@ def _call_shape(c: ast.Call, nm: "_Norm" = None, ctx: Ctx = None, f=None) -> str
     def val(v):
         if isinstance(v, ast.Name) and _TOKEN.match(v.id):
             return "=" + v.id
-        if isinstance(v, ast.Constant) and isinstance(v.value, (bool, type(None))):
+        if isinstance(v, ast.Constant) and (isinstance(v.value, (bool, type(None))) or (isinstance(v.value, str) and len(v.value) <= 24)):
             return "=" + repr(v.value)
         return ""
     if pos is not None and not any(isinstance(x, ast.Starred) for x in c.args) and len(c.args) <= len(pos) and all(k.arg in pos for k in c.keywords) and not any(k.arg is None for k in c.keywords):
@@ -735,8 +758,14 @@ def build_table(ctx: Ctx):
         r = function_shapes(ctx, spec)
         if r is None:
             continue
+        if _ORDER.get(spec):
+            t["%s|<order>" % spec] = {"atoms": [], "when": "1", "pairs": [list(p) for p in _ORDER[spec]], "order": True}
         if not any(gen for (gen, _t, _r, _d, _s) in r[1].values()):
-            continue        # a function without a guard decides nothing: which calls it makes is not pinned here (wrappers are inlined, renamed, re-routed freely)
+            # a function without a guard decides nothing: which calls it makes is not pinned here (wrappers are inlined, renamed, re-routed freely);
+            # what is pinned is that it HAS no guard - an action that becomes conditional is a decision that was not there
+            if r[1]:
+                t["%s|*" % spec] = {"atoms": [], "when": "1", "plain": True}
+            continue
         helper = _single_caller(ctx, r[0])
         for shape, (gen, dtext, _raw, _d, _sts) in r[1].items():
             t["%s|%s" % (spec, shape)] = {"atoms": gen, "when": dtext}
@@ -748,9 +777,9 @@ def build_table(ctx: Ctx):
 def table_sites(prop: str = None, shapes: str = None) -> int:
     """number of (function, shape) reach conditions of the committed table that a rule must decide (the tolerant bookkeeping shapes are not counted)"""
     table = json.load(open(table_path()))
-    fns = set(PROPERTY_FUNCTIONS[prop]) if prop else None
+    fns = set(PROPERTY_FUNCTIONS.get(prop, [])) if prop else None
     return sum(1 for k, v in table.items() if (fns is None or k.split("|")[0] in fns) and not k.split("|", 1)[1].startswith(TOLERANT)
-               and (shapes is None or re.search(shapes, k.split("|", 1)[1])) and not v.get("helper"))
+               and (shapes is None or re.search(shapes, k.split("|", 1)[1])) and not v.get("helper") and not v.get("plain") and not v.get("order"))
 
 
 def _state(atoms, asg) -> str:
@@ -761,26 +790,63 @@ def decision_table(ctx: Ctx, rep: Report, rid: str, functions=None, shapes: str 
     """For every function of the table and every action shape: the set of states (over the guard atoms) in which the function takes that action is the recorded one.
     `functions`: a property id (its functions), a list of function specs, or None for the whole table; `shapes`: a regular expression that selects action shapes."""
     from rules.reachcond import parse_diagram, difference
-    if isinstance(functions, str):
-        functions = PROPERTY_FUNCTIONS[functions]
     table = json.load(open(table_path()))
+    if isinstance(functions, str):
+        # the property's own functions, and every function of the table that one of the property's other rules anchors an instance in: the mechanisms the
+        # property's rules read live there, so when such a function acts in other states than recorded, this property's reading of it is no longer current
+        own = list(PROPERTY_FUNCTIONS.get(functions, [])) + [q for q in EXTRA_FUNCTIONS.get(functions, []) if q not in PROPERTY_FUNCTIONS.get(functions, [])]
+        specs_in_table = {k.split("|")[0] for k in table}
+        for i in list(rep.instances):
+            q = i.func
+            if q and q in ctx.prog.functions:
+                g = ctx.prog.functions[q]
+                if g.cls is not None:
+                    spec = "%s.%s" % (g.cls.name, g.name)
+                    if spec in specs_in_table and spec not in own:
+                        own.append(spec)
+        functions = own
     if shapes is not None:
         table = {k: v for k, v in table.items() if re.search(shapes, k.split("|", 1)[1])}
     specs = DECISION_FUNCTIONS if functions is None else functions
     n = want = 0
     for spec in specs:
         keys = {k: v for k, v in table.items() if k.split("|")[0] == spec}
+        order_old = keys.pop("%s|<order>" % spec, None)
+        if order_old is not None and shapes is None:
+            r0 = function_shapes(ctx, spec)
+            if r0 is not None:
+                now = {tuple(p) for p in (_ORDER.get(spec) or [])}
+                flipped = [p for p in order_old["pairs"] if (p[1], p[0]) in now]
+                f0 = r0[0]
+                if flipped:
+                    a, b = flipped[0]
+                    rep.violation(rid, "%s|<order>" % spec, "%s:%d" % (f0.module.relpath, f0.node.lineno), "%s used to do `%s` before `%s`; now `%s` comes first (%d pair(s) of "
+                                  "actions changed places) - whoever observes the state between the two sees the other one" % (f0.name, a, b, b, len(flipped)), func=f0.qname)
+                else:
+                    rep.ok(rid, "%s|<order>" % spec, "%s:%d" % (f0.module.relpath, f0.node.lineno), "%d ordered pairs of actions keep their order" % len(order_old["pairs"]),
+                           nontrivial=True, func=f0.qname)
         want += sum(1 for k in keys if not k.split("|", 1)[1].startswith(TOLERANT))
-        if not keys and (shapes is not None or not any(k.split("|")[0] == spec for k in table)):
+        if not keys:
             continue
         r = function_shapes(ctx, spec)
         if r is None:
-            if keys and not all(v.get("helper") for v in keys.values()):
+            if keys and not all(v.get("helper") or v.get("plain") for v in keys.values()):
                 rep.violation(rid, spec, "-", "the function %s of the decision table is gone from the current tree (%d action shapes)" % (spec, len(keys)))
             else:
                 want -= sum(1 for k in keys if not k.split("|", 1)[1].startswith(TOLERANT))      # a single-caller helper inlined into its caller: decided there
             continue
         f, found = r
+        if any(v.get("plain") for v in keys.values()):
+            cond = sorted((sh, v) for sh, v in found.items() if v[0] and not sh.startswith(TOLERANT))
+            if shapes is None:
+                want -= 1
+                if cond:
+                    sh, v = cond[0]
+                    rep.violation(rid, "%s|*" % spec, ctx.line(f, v[4][0]), "%s had no guard; now `%s` is only taken when %s over %s - some callers' requests are silently not carried out"
+                                  % (f.name, sh, v[1], v[0]), func=f.qname)
+                else:
+                    rep.ok(rid, "%s|*" % spec, "%s:%d" % (f.module.relpath, f.node.lineno), "no guard, as recorded", nontrivial=False, func=f.qname)
+            continue
         if shapes is not None:
             found = {k: v for k, v in found.items() if re.search(shapes, k)}
         for shape in sorted(set(found) | {k.split("|", 1)[1] for k in keys}):
